@@ -267,18 +267,33 @@ func xmlAddKeyElements(s Entry, parent *etree.Element) {
 	parentSchema, levelsUp := s.GetFirstAncestorWithSchema()
 	// from the parent we get the keys as slice, the key levels of
 	// the tree are in the alphabetical order of the key names
-	schemaKeys := parentSchema.GetSchemaKeys()
-	slices.Sort(schemaKeys)
-	var treeElem Entry = s
+	declaredKeys := parentSchema.GetSchemaKeys()
+	treeOrderKeys := slices.Clone(declaredKeys)
+	slices.Sort(treeOrderKeys)
 	// the keys do match the levels up in the tree in reverse order
 	// hence we init i with levelUp and count down
+	keyValues := map[string]string{}
+	var treeElem Entry = s
 	for i := levelsUp - 1; i >= 0; i-- {
-		// skip if the element already exists
-		existingElem := parent.SelectElement(schemaKeys[i])
-		if existingElem == nil {
-			// and finally we create the patheleme key attributes
-			parent.CreateElement(schemaKeys[i]).SetText(treeElem.PathName())
-		}
+		keyValues[treeOrderKeys[i]] = treeElem.PathName()
 		treeElem = treeElem.GetParent()
+	}
+	// the key elements have to be the first childs, in the order of the key statement
+	idx := 0
+	for _, k := range declaredKeys {
+		value, exists := keyValues[k]
+		if !exists {
+			continue
+		}
+		keyElem := parent.SelectElement(k)
+		if keyElem != nil {
+			parent.RemoveChild(keyElem)
+		} else {
+			keyElem = etree.NewElement(k)
+		}
+		// a key element always carries the key value
+		keyElem.SetText(value)
+		parent.InsertChildAt(idx, keyElem)
+		idx++
 	}
 }
